@@ -484,6 +484,15 @@ Proof.
   intros n x Hn. rewrite H in Hn by reflexivity. destruct n; discriminate.
 Qed.
 
+Definition run_from (s : pool) (tr : list event) : pool := fold_left (fun s e => fst (step s e)) tr s.
+
+Lemma good_run : forall tr s, AllJ s -> AllJ (run_from s tr) /\ smono s (run_from s tr).
+Proof.
+  unfold run_from. induction tr as [|e tr IH]; intros s Ha; cbn; [split; [exact Ha|apply smono_refl]|].
+  destruct (good_step s e Ha) as [Ha1 Hm1]. destruct (IH _ Ha1) as [Ha2 Hm2].
+  split; [exact Ha2|eapply smono_trans; eauto].
+Qed.
+
 (* the invariant holds in every reachable state, and every job only ever moves forward *)
 Theorem reachable_good c : forall tr,
     AllJ (run c tr) /\ forall tr', smono (run c tr) (run c (tr ++ tr')).
